@@ -73,6 +73,11 @@ CHECKS = {
         "note": TRUST + " Not proved: the whole-file bridge (decode of an encoded abstract disk) -- it is checked by execution (ii, iii).",
         "design": "DESIGN.md section 5 C10",
     },
+    "C07": {
+        "text": "Coq over Model/Sched.v, a step-by-step rendering of the per-key protocol (optimistic read, local computation, re-validation and swap under the entry guard, retirement-timestamp checks, retry loops) for get, insert, delete, compare-and-swap, increment, insert-if-absent and JSON patch: for every number of threads, every program and every schedule the commits in response order form a legal sequential last-writer-wins history ending in the final contents, each thread receives exactly its commits' responses, the only deviations are flagged refusals (OlderTimestamp / no-swap) that change nothing; consequences proved on the witness: no increment is lost, one insert-if-absent wins, an accepted write never lands on an equal or newer timestamp. Ties: (i) the same programs under the same schedule on the real store, threads parked at the H7 scheduling points, must give the model's responses and final contents; (ii) real histories from controlled and free-running threads are judged by the extracted checker lin_check, proved sound in Coq.",
+        "note": TRUST + " Partial in one respect: the justification clause of the refusals (an accepted concurrent modification with an equal or newer timestamp exists) is checked on real histories by lin_check, not proved for the model. Atomicity of the segments between H7 points and exclusiveness of scc entry guards are assumptions of the model; interleavings inside a segment are exercised only by the free-running histories.",
+        "design": "DESIGN.md section 5 C07",
+    },
     "C15": {
         "text": "Coq: the read-only recovery used for the migration source writes nothing for any image and outcome (source untouched); a successful migration spec means no destination existed, the source is v1/v2 with a successful read-only recovery, and the destination record list is exactly the recovered keys with identical timestamps and absolute expiries (TTL filtering off, so expired newest generations are copied and no older value can reappear). Tie: the real migrate() on engine-built and damaged legacy images vs migrate_spec of the source image (outcome, report, destination contents read back by the real store), with an oracle for non-destructiveness (source hash, no publication or temporary on failure, existing destination untouched, v3 result).",
         "note": TRUST + " Filesystem operations (hard_link publication, rollback, directory sync) are observed, not modelled; record-by-record verification inside migrate() is covered only through its outcome.",
